@@ -76,6 +76,27 @@ def run(chk):
         if a != b:
             chk.violate({"kind": "property", "case": lib.show_case(c), "impl": a, "fresh_parse": b,
                          "explanation": "parsing an architecture name into a value that was used before gives another triple than a fresh parse"})
+    # blanks AROUND a name are not part of it (a folded field arrives as "linux-any\n"), blanks INSIDE refuse it - through ParseArch
+    # and through Arch.UnmarshalControl alike
+    bc, bw = [], []
+    plain_ok = [n for n in ok_names if not any(ch in n for ch in b" \t\r\n")]
+    for n in rng.sample(plain_ok, min(len(plain_ok), 300)):
+        base = chk.run_impl([("aparse", [n])])[0] if False else None
+        for w1, w2 in ((b"", b"\n"), (b" ", b""), (b"\t ", b" \r\n"), (b"\n", b"\n")):
+            bc.append(("aparse", [w1 + n + w2])); bw.append(n)
+            bc.append(("areuse", [b"all", w1 + n + w2])); bw.append(n)
+    bi = chk.run_impl(bc)
+    bf = dict(zip(sorted(set(bw)), chk.run_impl([("aparse", [n]) for n in sorted(set(bw))])))
+    chk.record("arch-names-with-blanks-around", bc, bi, lambda c, r: True)
+    for c, r, n in zip(bc, bi, bw):
+        if r != bf[n]:
+            chk.violate({"kind": "property", "case": lib.show_case(c), "impl": r, "bare_name": bf[n],
+                         "explanation": "an architecture name with blanks around it (a folded field value) does not parse to the triple of the bare name"})
+    ic = [("aparse", [a + w + b]) for a in (b"gnu-linux-", b"x", b"any-") for w in (b" ", b"\t", b" \n") for b in (b"amd64", b"y")]
+    for c, r in zip(ic, chk.run_impl(ic)):
+        if r != "err":
+            chk.violate({"kind": "property", "case": lib.show_case(c), "impl": r,
+                         "explanation": "an architecture name with a blank inside was accepted (it renders to a text that reads back as another architecture)"})
     # what the parsers hand out belongs to the caller: after the caller edited the values it got for a name, the same name
     # parsed again (alone, in a list, as qualifier, as list entry) still denotes its own triple
     simple = [n for n in ok_names if all(c not in n for c in b" !,|[]<>()$:")]
